@@ -108,14 +108,23 @@ def spectrum_case(draw, tier):
     w[0], w[-1] = lo, hi
     if np.any(np.diff(w) <= 0):
         w = np.linspace(lo, hi, n)
+    cls = draw(st.sampled_from(["Spectrum", "Spectrum", "Spectrum", "copy", "Blackbody", "vegamag"]))
+    vu = draw(st.sampled_from([None, "photlam", "flam", "wlam"]))
+    path = [draw(st.sampled_from(["m", "um", "nm", "angstrom", "photlam", "flam", "wlam"]))
+            for _ in range(draw(st.integers(1, 4)))]
+    if cls == "vegamag":
+        vu = "photlam"                      # the zero points are photon fluxes
+    if cls in ("Blackbody", "vegamag"):
+        vu = vu or "photlam"
+        if not any(p in ("photlam", "flam", "wlam") and p != vu for p in path):
+            path.insert(draw(st.integers(0, len(path))), draw(st.sampled_from([u for u in ("photlam", "flam", "wlam") if u != vu])))
     return {"wave_m": w, "value": rng.uniform(0.1, 5.0, size=n) * draw(gen.pos_log(1e-6, 1e6)),
             "unit": draw(st.sampled_from(["m", "um", "nm", "angstrom"])),
-            "valueunit": draw(st.sampled_from([None, "photlam", "flam", "wlam"])),
-            "path": [draw(st.sampled_from(["m", "um", "nm", "angstrom", "photlam", "flam", "wlam"]))
-                     for _ in range(draw(st.integers(1, 4)))],
+            "valueunit": vu,
+            "path": path,
             "two_arg": draw(st.booleans()),
             # the object converted: a plain Spectrum, a copy() of one, or one of the Spectrum subclasses
-            "cls": draw(st.sampled_from(["Spectrum", "Spectrum", "Spectrum", "copy", "Blackbody", "vegamag"])),
+            "cls": cls,
             "temp_factor": draw(gen.finite(1.0, 4.0)), "mag": draw(gen.finite(-2.0, 12.0)),
             "band": draw(st.sampled_from(["U", "B", "V", "R", "I", "J", "H", "K"]))}
 
